@@ -197,6 +197,8 @@ def shards(tier, seed):
     sel = sel[:: max(1, len(sel) // (6 if q else 14))][: (6 if q else 14)]
     for key in sel:
         out.append(("toy_%d_%d_%d" % key, dict(kind="toy", key=key, ndig=2 if q else 3)))
+    if not q:
+        out.append(("repo_test_suite_under_contract", dict(kind="suite")))
     return out
 
 
@@ -216,7 +218,47 @@ def digest_len_class(L, baselen, nbits):
     return "long"
 
 
+def run_suite(ctx, which="sign"):
+    """The repository's own tests as an additional workload, contracts on (C01 signers, C02 verify_digest)."""
+    import json
+    import os
+    import subprocess
+    import tempfile
+    repo = os.environ.get("VERIF_REPO", "/repo")
+    tmp = tempfile.mkdtemp(prefix="vfsuite", dir="/var/tmp")
+    out = os.path.join(tmp, "out.json")
+    env = dict(os.environ, VF_SUITE_OUT=out, HYPOTHESIS_STORAGE_DIRECTORY=os.path.join(tmp, "hyp"))
+    try:
+        r = subprocess.run(["/venv/bin/python", "-m", "pytest", "-q", "-p", "no:cacheprovider", "-p", "vf.pytest_plugin", "--timeout=900",
+                            "--deselect", "src/ecdsa/test_pyecdsa.py::OpenSSL", os.path.join(repo, "src", "ecdsa")],
+                           cwd=tmp, env=env, capture_output=True, timeout=1500)
+        if not os.path.exists(out):
+            ctx.note("suite run produced no result: %s" % r.stdout.decode()[-400:])
+            ctx.count("suite_inconclusive")
+            return
+        res = json.load(open(out))
+    finally:
+        import shutil
+        shutil.rmtree(tmp, ignore_errors=True)
+    is_verify = lambda name: "verify_digest" in name or name.split(":")[0] in ("forgery_accepted", "valid_signature_rejected", "verify_wrong_outcome")
+    keep = (lambda name: is_verify(name)) if which == "verify" else (lambda name: not is_verify(name))
+    for k, v in res["classes"].items():
+        if keep(k):
+            ctx.classes["suite:" + k] += v
+            ctx.evals += v
+    for k, v in res["counters"].items():
+        if keep(k):
+            ctx.counters["suite:" + k] += v
+    ctx.nontrivial |= set("suite:" + k for k in res["nontrivial"] if keep(k))
+    for v in res["violations"]:
+        if keep(v["mech"]):
+            ctx.violations.append(v)
+            ctx.nviol += 1
+
+
 def run(ctx, name, kind, **kw):
+    if kind == "suite":
+        return run_suite(ctx)
     install()
     _state["ctx"] = ctx
     rng = ctx.rng
